@@ -278,6 +278,11 @@ class Interp(ExprMixin, CallMixin):
         v = self.eval(st.value, fr)
         for t in st.targets:
             self.bind_target(t, v, fr, st)
+        if len(st.targets) == 1 and isinstance(st.targets[0], ast.Name):
+            # the expression a local currently stands for: ``ok = isinstance(x, T); if ok:`` refines x like ``if isinstance(x, T):``
+            a = dict(fr.env.get('__ast__', {}))
+            a[st.targets[0].id] = st.value
+            fr.env['__ast__'] = a
         return 'next'
 
     def s_AnnAssign(self, st, fr):
@@ -359,7 +364,7 @@ class Interp(ExprMixin, CallMixin):
     def merge_env(self, fr, cond, a, b):
         names = set(a.env) | set(b.env)
         for n in names:
-            if n == '__refined__':
+            if n in ('__refined__', '__ast__'):
                 ra, rb = a.env.get(n, {}), b.env.get(n, {})
                 fr.env[n] = {k: v for k, v in ra.items() if rb.get(k) is v} if isinstance(ra, dict) and isinstance(rb, dict) else {}
                 continue
@@ -385,6 +390,8 @@ class Interp(ExprMixin, CallMixin):
         # a two armed conditional is recorded under its positive condition: ``if not c: A else: B`` and ``if c: B else: A``
         # (likewise != / is not / not in against == / is / in) give the same trace
         body, orelse, test = st.body, st.orelse, st.test
+        if isinstance(test, ast.Name):
+            test = fr.env.get('__ast__', {}).get(test.id, test)
         POSITIVE = {'!=': '==', 'is not': 'is', 'not in': 'in'}
         while orelse and isinstance(cond, Sym):
             if cond.op == 'not':
@@ -673,7 +680,7 @@ class Interp(ExprMixin, CallMixin):
         node.status = status
         # accumulate loop carried values
         for n, new in sub.env.items():
-            if n == '__refined__':
+            if n in ('__refined__', '__ast__'):
                 continue
             old = before.get(n)
             if old is None and n not in before:
@@ -739,7 +746,7 @@ class Interp(ExprMixin, CallMixin):
             sub.cond_depth += 1
             # variables assigned in the try body are uncertain inside the handler
             for n, v in body.env.items():
-                if n == '__refined__':
+                if n in ('__refined__', '__ast__'):
                     continue
                 if n not in fr.env or not same_value(fr.env[n], v):
                     sub.env[n] = Sym('phi', fr.env.get(n, Unknown('unbound')), v)
